@@ -35,8 +35,23 @@ def struct_methods(repo: Repo, ci: ClassInfo) -> Dict[str, Tuple[str, int, Optio
             if isinstance(n, ast.Call):
                 f = norm(n.func)
                 if f in ("pack", "struct.pack", "self._read") and n.args:
+                    a0 = resolve_names(n.args[0], defs)
+                    # self._read(self._UINT8, default): the codec object names its format
+                    if isinstance(a0, (ast.Name, ast.Attribute)):
+                        try:
+                            d0 = inline.definition_of(repo, ci, ci.file, a0)
+                        except Exception:
+                            d0 = None
+                        if isinstance(d0, ast.Call) and norm(d0.func).split(".")[-1] == "Struct" and len(d0.args) == 1:
+                            try:
+                                v0 = repo.fold(d0.args[0], ci=ci)
+                                if isinstance(v0, str):
+                                    fmt = v0
+                                    continue
+                            except NotConst:
+                                pass
                     try:
-                        v = repo.fold(resolve_names(n.args[0], defs), ci=ci)
+                        v = repo.fold(a0, ci=ci)
                         if isinstance(v, str):
                             fmt = v
                             if f == "self._read" and len(n.args) > 1:
